@@ -263,7 +263,10 @@ class ModGen:
                                                                + ([] if self.text_safe else [2**63, 2**64 - 1]))))
             else:
                 args.append('%s:%s' % (t, n))
-        vararg = 1 if (nargs > 0 or not for_func) and rng.random() < 0.2 else 0
+        # a vararg prototype with results and NO named parameter (what c2m emits for a call of an unprototyped function) is its
+        # own case of the text syntax (separator in front of the ellipsis): frequent enough to be in every run
+        pv = 0.6 if not for_func and nargs == 0 and nres > 0 else 0.2
+        vararg = 1 if (nargs > 0 or not for_func) and rng.random() < pv else 0
         return vararg, res, args
 
     # ------------------------------------------------------------ operands for a syntactic function
